@@ -84,7 +84,7 @@ def trace_of(sc, o):
         for k, nm in enumerate(names_of(i + 1, rq["sn"])):
             owner[nm] = (i + 1, k + 1)
     tr = [{"e": "cfg", "max": sc["_max"]}]
-    over = set()
+    over, lastfate = set(), {}
     for ev in o["log"]:
         e = ev["e"]
         if e == "q" and ev["tr"] == "tcp" and ev["n"] in owner and owner[ev["n"]][0] in over:
@@ -100,10 +100,12 @@ def trace_of(sc, o):
                 tr.append({"e": "probe", "ns": ev["ns"]})
             else:
                 r, k = owner[ev["n"]]
+                lastfate[r] = ev["fate"]
                 tr.append({"e": "q", "r": r, "ns": ev["ns"], "id": ev["id"], "fate": "drop" if ev["fate"] in ("norule", "?") else ev["fate"],
                            "tcp": 1 if ev["tr"] == "tcp" else 0, "name": k})
         elif e == "a":
-            if ev["n"] in owner:
+            # a reply cut off by closing the TCP connection is not an answer
+            if ev["n"] in owner and lastfate.get(owner[ev["n"]][0]) != "close":
                 tr.append({"e": "a", "r": owner[ev["n"]][0]})
         elif e == "cb":
             tr.append({"e": "cb", "r": ev["r"], "res": ERR.get(ev["err"], "err")})
